@@ -14,10 +14,14 @@ X->ulongs_count, X->ulongs_allocated, 0), with a small number of disjuncts per p
     a successful enlarge may instead use ulongs_allocated), and e >= 0 when e has a signed type.
 Arithmetic is over mathematical integers: unsigned wrap-around (count - 1 with count == 0) is not modelled (stated in DESIGN.md).
 
-Scope: the obligation set is the accesses of the functions in which EVERY access is proved on the pinned tree (the rule is
-then exact there); functions with an access the domain cannot prove are reported as out of scope and counted."""
+Scope: the functions in which EVERY access is proved on the pinned tree (frozen in zone_proven.json; the rule is exact
+there): an access of one of them that is no longer proved is a violation.  Functions with an access the domain cannot prove are
+frozen out of scope with the reason; functions that did not exist when the scope was frozen (a helper extracted by a
+refactoring needs its callers' context) are reported and counted, not judged."""
 from prog import *
 
+import json as _json
+PROVEN = _json.load(open(os.path.join(os.path.dirname(os.path.abspath(__file__)), "zone_proven.json")))   # functions in which every access is proved on the pinned tree
 INF = 1 << 40
 MAXDISJ = 6
 HELPERS = {"hwloc_bitmap_reset_by_ulongs": "reset", "hwloc_bitmap_realloc_by_ulongs": "realloc", "hwloc_bitmap_enlarge_by_ulongs": "enlarge"}
@@ -761,6 +765,12 @@ def run(chk, P, unit="bitmap.c", rule="R-WORDIDX", min_funcs=10):
             outscope.append("%s (%s)" % (f.name, e))
             continue
         yield_f = (f, z)
+        if f.name not in PROVEN["R-WORDIDX"] and f.name not in OUT_OF_SCOPE:
+            # a function that did not exist (under this name) when the scope was frozen, e.g. a helper extracted by a refactoring:
+            # its accesses may need its callers' context; it is reported, not judged
+            outscope.append("%s (not in the frozen scope: %d accesses, %d proved)" % (f.name, len(z.obl), sum(1 for v in z.obl.values() if v[0])))
+            chk.inst(rule, f, "unjudged", True, "function outside the frozen scope: %d of %d accesses proved" % (sum(1 for v in z.obl.values() if v[0]), len(z.obl)), nontrivial=False, info=True)
+            continue
         if all(v[0] for v in z.obl.values()) and z.obl:
             n_funcs += 1
             k = 0
@@ -841,6 +851,10 @@ def run_generic(chk, P, rule="R-ARRIDX", specs=None, frozen=None):
             outscope.append((f.name, 0, 0, str(e)))
             continue
         bad = [v for v in z.obl.values() if not v[0]]
+        if f.name not in PROVEN["R-ARRIDX"] and f.name not in frozen:
+            outscope.append((f.name, len(bad), len(z.obl), "not in the frozen scope"))
+            chk.inst(rule, f, "unjudged", True, "function outside the frozen scope: %d of %d accesses proved" % (len(z.obl) - len(bad), len(z.obl)), nontrivial=False, info=True)
+            continue
         if z.obl and not bad:
             k = 0
             for nid, (ok, why, loc, text) in sorted(z.obl.items(), key=lambda kv: kv[1][2]):
